@@ -44,10 +44,11 @@ def run_kani_unit(u, repo, bdir, tier):
                 f.write(text)
             splice_lines[sp["file"]] = n0
         crate_dir = os.path.join(sc, u.get("crate_dir", "."))
-        waves = (len(hs) + 15) // 16
+        jobs = int(u.get("jobs", 16))
+        waves = (len(hs) + jobs - 1) // jobs
         budget = waves * max(h.get("budget_s", 300) for h in hs) + 240
         cmd = ["cargo", "kani", "--target-dir", os.path.join(BUILD, "kani-target"), "-Z", "stubbing", "-Z", "unstable-options",
-               "-j", str(min(len(hs), int(os.environ.get("VERIF_KANI_JOBS", "16")))), "--output-format", "terse",
+               "-j", str(min(len(hs), int(u.get("jobs", os.environ.get("VERIF_KANI_JOBS", "16"))))), "--output-format", "terse",
                "--harness-timeout", f"{max(h.get('budget_s', 300) for h in hs)}s"]
         for a in u.get("cargo_args", []):
             cmd.append(a)
@@ -67,8 +68,10 @@ def run_kani_unit(u, repo, bdir, tier):
             errs = [l for l in out.split("\n") if l.startswith("error")][:3]
             res["reason"] = "the harness does not compile against the working tree (lost anchor / changed signature): " + " | ".join(errs)
             return res
-        if "unsupported" in out.lower() and "Manual Harness Summary" not in out:
-            res["reason"] = "kani: unsupported construct"
+        if "Manual Harness Summary" not in out:
+            tail = [l for l in out.strip().split("\n") if l.strip()][-12:]
+            why = "kani-driver was killed (signal / memory limit)" if any("No exit code" in l for l in tail) else " | ".join(tail[-3:])[:300]
+            res["reason"] = "kani did not complete: " + why
             return res
         m = re.search(r"Complete - (\d+) successfully verified harnesses, (\d+) failures, (\d+) total", out)
         if not m or int(m.group(3)) != len(hs):
